@@ -520,3 +520,109 @@ def sample(rng, items, k):
     if len(items) <= k:
         return items
     return rng.sample(items, k)
+
+
+# --------------------------------------------------------------------------------------------
+# the "edge replay" flow shared by the API-level specs (sequential objects)
+# --------------------------------------------------------------------------------------------
+def edge_replay_flow(ctx, *, module, cfg, negs, tmodule, tcfg, harness, mode, signature,
+                     make_schedule=None, extra_args=None, nontrivial=None, budget=None, tag=None,
+                     neg_prefix=None, workers=1, extra_runs=0, tlc_timeout=1200):
+    """1. TLC exhaustive on `cfg` (design variants) with the edge dump; NEG configs must be rejected.
+       2. init-rooted path cover of every edge -> schedules; the harness replays them on the real code
+          and records observations; it also compares with the edge label (spec's result).
+       3. TLC validates recorded traces against the trace spec: all runs the harness flagged (first 10)
+          and a seeded sample of the others up to an event budget, plus `extra_runs` leading runs the
+          harness generated itself (random mode).
+       Returns dict with schedules, runs, summary."""
+    tag = tag or ctx.prop.lower()
+    dump = os.path.join(ctx.workdir, "%s-mc.out" % tag)
+    res = ctx.model_check(module, cfg, workers=workers, keep=dump, timeout=tlc_timeout)
+    require_ok(res, cfg)
+    ctx.add_tlc(cfg, res, "exhaustive, design variants, edge dump")
+    for ncfg, exp in (negs or {}).items():
+        ctx.expect_neg(module, ncfg, exp)
+    g = graph_from_tlc(res.stdout)
+    paths, covered, total = path_cover(g, ctx.rng)
+    scheds = []
+    for p in paths:
+        acts = [g.edges[ei][1] for ei in p]
+        init_view = json.loads(g.edges[p[0]][0])
+        scheds.append(make_schedule(init_view, acts) if make_schedule else acts)
+    sfile = os.path.join(ctx.workdir, "%s-schedules.ndjson" % tag)
+    write_ndjson(sfile, scheds)
+    tfile = os.path.join(ctx.workdir, "%s-trace.ndjson" % tag)
+    args = [mode, "--schedules", sfile, "--trace", tfile] + list(extra_args or [])
+    r = run_harness(harness, args)
+    summ = json.loads(r.stdout.strip().splitlines()[-1])
+    runs = split_runs(read_ndjson(tfile))
+    rand_runs, sched_runs = runs[:extra_runs], runs[extra_runs:]
+    if len(sched_runs) != len(scheds):
+        raise ToolError("harness recorded %d runs for %d schedules" % (len(sched_runs), len(scheds)))
+    flagged = sorted({m["run"] for m in summ["first_mismatches"]})
+    budget = budget or (15000 if ctx.quick else 150000)
+    pick, ev = [], 0
+    order = list(range(len(sched_runs)))
+    ctx.rng.shuffle(order)
+    for i in order:
+        if i in flagged:
+            continue
+        if ev + len(sched_runs[i]) > budget:
+            break
+        pick.append(i)
+        ev += len(sched_runs[i])
+    to_check = [("sched", i) for i in flagged[:10]] + [("sched", i) for i in pick] + \
+               [("rand", i) for i in range(len(rand_runs))]
+    rr = [sched_runs[i] if k == "sched" else rand_runs[i] for k, i in to_check]
+    accepted, rejects = validate_runs(tmodule, tcfg, rr, ctx.workdir, tag=tag)
+    ctx.cov["traces_validated_against_impl"] += accepted
+    for (ri, pos, pred) in rejects:
+        kind, idx = to_check[ri]
+        rec = rr[ri][min(pos, len(rr[ri]) - 1)]
+        ctx.violation(signature(rec),
+                      "TLC rejects the recorded trace at record %d (%s run): observed %s%s" % (
+                          pos, kind, json.dumps(rec), (", predicate " + pred) if pred else ""),
+                      {"mode": mode, "kind": kind, "schedule": scheds[idx] if kind == "sched" else None,
+                       "trace": rr[ri]})
+    for m in summ["first_mismatches"]:
+        if m["run"] not in flagged[:10]:
+            ctx.violation(signature(m["observed"]), "observed %s, the spec's result is %s" % (
+                json.dumps(m["observed"]), json.dumps(m["expected"])),
+                {"mode": mode, "schedule": scheds[m["run"]]})
+    if summ["mismatches"] and not rejects and not ctx.known_hits:
+        raise ToolError("driver flagged %d runs but TLC accepted them: oracle disagreement" % summ["mismatches"])
+    nt = sum(1 for s in scheds if nontrivial(s)) if nontrivial else len(scheds)
+    ctx.cov["evaluations"] += len(scheds) + len(rand_runs)
+    ctx.cov["distinct_nontrivial"] += nt
+    ctx.cov.setdefault("model_edges", 0)
+    ctx.cov.setdefault("model_edges_replayed_on_impl", 0)
+    ctx.cov.setdefault("impl_steps", 0)
+    ctx.cov.setdefault("driver_mismatches", 0)
+    ctx.cov["model_edges"] += total
+    ctx.cov["model_edges_replayed_on_impl"] += covered
+    ctx.cov["impl_steps"] += summ["steps"]
+    ctx.cov["driver_mismatches"] += summ["mismatches"]
+    ctx.cov["exhaustive"] = True
+    if scheds:
+        ctx.cov["samples"].append({"spec": module, "schedule": scheds[0], "observed_trace": sched_runs[0]})
+    return {"schedules": scheds, "sched_runs": sched_runs, "rand_runs": rand_runs, "summary": summ}
+
+
+def replay_flow(ctx, path, *, harness, tmodule_by_mode, signature):
+    rp = json.load(open(path))["replay"]
+    mode = rp.get("mode")
+    tmodule, tcfg = tmodule_by_mode[mode]
+    sfile = os.path.join(ctx.workdir, "replay-sched.ndjson")
+    tfile = os.path.join(ctx.workdir, "replay-trace.ndjson")
+    if rp.get("schedule") is not None:
+        write_ndjson(sfile, [rp["schedule"]])
+        run_harness(harness, [mode, "--schedules", sfile, "--trace", tfile])
+        runs = split_runs(read_ndjson(tfile))
+    else:
+        runs = [rp["trace"]]
+    accepted, rejects = validate_runs(tmodule, tcfg, runs, ctx.workdir, tag="replay")
+    ctx.cov.update({"evaluations": 1, "distinct_nontrivial": 1, "states": 1, "transitions": 1,
+                    "traces_validated_against_impl": accepted, "samples": [runs[0][:20]]})
+    for (ri, pos, pred) in rejects:
+        rec = runs[ri][min(pos, len(runs[ri]) - 1)]
+        ctx.violation(signature(rec), "replay rejected at record %d: %s" % (pos, json.dumps(rec)), rp)
